@@ -408,6 +408,48 @@ start :: fn do
 end
 ''', {"a": (0, 5), "b": (0, 5)})
 
+T("generic_hof_explicit", "explicitly-generic-higher-order-functions", '''
+apply :: fn f: fn *a -> *b, x: *a -> *b do
+    ret f(x)
+end
+apply_rev :: fn x: *a, f: fn *a -> *b -> *b do
+    ret f(x)
+end
+compose :: fn f: fn *a -> *b, g: fn *b -> *c -> fn *a -> *c do
+    ret fn x: *a -> *c do ret g(f(x)) end
+end
+pair_map :: fn p: (*a, *a), f: fn *a -> *b -> (*b, *b) do
+    ret (f(p[0]), f(p[1]))
+end
+start :: fn do
+    a := ?a
+    print(apply(fn t: (int, int) -> int do ret t[0] + t[1] end, (a, 1)))
+    print(apply_rev(a, fn i: int -> str do ret "n" + as_str(i) end) + "!")
+    h := compose(fn i: int -> int do ret i * 2 end, fn i: int -> str do ret as_str(i) end)
+    print(h(a) + "?")
+    print(pair_map((a, 2), fn i: int -> int do ret i + 1 end) + (1, 1))
+end
+''', {"a": (0, 3)})
+
+T("generic_apply_function_first", "explicitly-generic-apply(function first)", '''
+apply :: fn f: fn *a -> *b, x: *a -> *b do
+    ret f(x)
+end
+start :: fn do
+    print(apply(fn t: (int, int) -> int do ret t[0] + t[1] end, (?a, 1)))
+end
+''', {"a": (0, 3)})
+
+T("generic_apply_value_first", "explicitly-generic-apply(value first)", '''
+apply_rev :: fn x: *a, f: fn *a -> *b -> *b do
+    ret f(x)
+end
+start :: fn do
+    r := apply_rev(?a, fn i: int -> int do ret i * 2 end)
+    print(r + 1)
+end
+''', {"a": (0, 3)})
+
 # ------------------------------------------------------------------ if / case expressions
 T("if_expr_value", "if-expression-value", '''
 start :: fn do
